@@ -327,12 +327,21 @@ def check_case(case, res, use_v=True):
             # oracle 0: declared stack ranges disjoint
             rl = sorted((lo, hi, i) for i, (lo, hi) in b.ranges.items())
             overlap = None
-            for x in range(1, len(rl)):
-                if rl[x][0] < rl[x - 1][1]:
-                    overlap = (rl[x - 1][2], rl[x][2])
+            pairs = []
+            for x in range(len(rl)):
+                for y in range(x + 1, len(rl)):
+                    if rl[y][0] < rl[x][1]:
+                        pairs.append((rl[x][2], rl[y][2]))
+            # the recorded finding is about sub-program locals overlapping
+            # each other; a sub-program local inside the main program's
+            # declared frame is another matter
+            mixed = [p for p in pairs
+                     if not all(case["vars"][i][0].startswith("sub")
+                                for i in p)]
+            if pairs:
+                overlap = mixed[0] if mixed else pairs[0]
             res.count("stack_variables", len(rl))
-            subinvolved = overlap and any(
-                case["vars"][i][0].startswith("sub") for i in overlap)
+            subinvolved = overlap and not mixed
             if overlap:
                 res.violation(
                     "subprogram-locals-overlap" if subinvolved
@@ -446,7 +455,7 @@ def classify(case, b, bad, overlap):
                 if rl[y][0] < rl[x][1]:
                     involved |= {rl[x][2], rl[y][2]}
         if badvars & involved:
-            if any(case["vars"][i][0].startswith("sub") for i in involved):
+            if all(case["vars"][i][0].startswith("sub") for i in involved):
                 return "subprogram-locals-overlap"
     kinds = sorted({case["vars"][i][1] for i in badvars})
     if case.get("avars2") and set(kinds) <= {"array", "array2"}:
